@@ -3,8 +3,9 @@ EXTENDS ScriptStatus, Json
 C(st) == [k |-> "c", st |-> st]
 FB == [f \in {"f1", "f-2", "f_3"} |->
          IF f = "f1" THEN <<C("z")>> ELSE IF f = "f-2" THEN <<C("nz")>> ELSE <<C("nz"), C("z")>>]
-SB == [s \in {"s1", "s2"} |->
-         IF s = "s1" THEN <<C("nz")>> ELSE <<C("z"), [k |-> "exit", n |-> 4], C("z")>>]
+SB == [s \in {"s1", "s2", "s3"} |->
+         IF s = "s1" THEN <<C("nz")>> ELSE IF s = "s3" THEN <<C("nz"), C("z")>>      \* s3: fails, then succeeds
+         ELSE <<C("z"), [k |-> "exit", n |-> 4], C("z")>>]
 FP == { <<"z","z","z">>, <<"nz","z","z">>, <<"z","nz","z">>, <<"z","z","nz">> }
 NoLegacy == {}
 AllLegacy == {"funcstatus0", "sete_local"}
